@@ -464,7 +464,7 @@ func checkRetryPop(p *Prog, r *Roles, res *Result) {
 		}
 		var pops []ssa.CallInstruction
 		for _, c := range callsIn(f) {
-			if sc := c.Common().StaticCallee(); sc != nil && sc.Pkg == rp && isQueuePop(sc) {
+			if sc := c.Common().StaticCallee(); sc != nil && sc.Pkg == rp && wrapsQueuePop(sc, 0) {
 				pops = append(pops, c)
 			}
 		}
@@ -543,6 +543,39 @@ func checkRetryPop(p *Prog, r *Roles, res *Result) {
 			res.ok("C09-R3", construct2, p.pos(pops[0].Pos()), "on every path where the repair write's error is non-nil the pop is not reachable (the entry stays queued and is examined again)")
 		}
 	}
+}
+
+// wrapsQueuePop: f is the pop, or a wrapper that does nothing with the queue but run the pop (directly, in a function
+// literal, or by handing the pop as a method value to a run-under-lock helper).
+func wrapsQueuePop(f *ssa.Function, depth int) bool {
+	if f == nil || f.Blocks == nil || depth > 2 {
+		return false
+	}
+	if isQueuePop(f) {
+		return true
+	}
+	if len(f.Params) != 1 {
+		return false
+	}
+	for _, g := range withAnon(f) {
+		for _, b := range g.Blocks {
+			for _, ins := range b.Instrs {
+				if c, ok := ins.(ssa.CallInstruction); ok {
+					if sc := c.Common().StaticCallee(); sc != nil && sc != f && sc.Pkg == f.Pkg && sc.Signature.Recv() != nil && wrapsQueuePop(sc, depth+1) {
+						return true
+					}
+				}
+				if mc, ok := ins.(*ssa.MakeClosure); ok {
+					if fn, ok := mc.Fn.(*ssa.Function); ok && fn.Synthetic != "" {
+						if t := unwrapSynthetic(fn); t != nil && t != f && isQueuePop(t) {
+							return true
+						}
+					}
+				}
+			}
+		}
+	}
+	return false
 }
 
 func isQueuePop(f *ssa.Function) bool {
